@@ -171,6 +171,11 @@ type BuildInfo struct {
 
 // buildProgram assembles the scratch module for one corpus program (same-package mode).
 func buildProgram(p *Program, pluginBin, out string, kl, km int) (*BuildInfo, error) {
+	return buildProgramWithStructs(p, pluginBin, out, kl, km, nil)
+}
+
+// buildProgramWithStructs: structs != nil overrides the file gogo generates package p from.
+func buildProgramWithStructs(p *Program, pluginBin, out string, kl, km int, structs *d.FileDescriptorProto) (*BuildInfo, error) {
 	var file *d.FileDescriptorProto
 	if p.Raw != nil {
 		file = p.Raw()
@@ -190,7 +195,11 @@ func buildProgram(p *Program, pluginBin, out string, kl, km int) (*BuildInfo, er
 	if len(resp.File) != 1 {
 		return nil, fmt.Errorf("expected exactly one generated file, got %d", len(resp.File))
 	}
-	pb, err := gogoStructs(file)
+	sf := file
+	if structs != nil {
+		sf = structs
+	}
+	pb, err := gogoStructs(sf)
 	if err != nil {
 		return nil, err
 	}
@@ -224,6 +233,13 @@ func buildProgram(p *Program, pluginBin, out string, kl, km int) (*BuildInfo, er
 			switch fam {
 			case "rt":
 				g.harnessRT(r)
+			case "custom":
+				g.havocMsg(r.Msg)
+				g.attrTypes(r)
+				if g.once("extra") {
+					g.p("%s", p.Extra)
+					g.hs = append(g.hs, p.ExtraHs...)
+				}
 			case "corrupt":
 				g.harnessCorrupt(r)
 			case "schema":
